@@ -290,3 +290,45 @@ Definition web_request_cfg (e : env) (cur : config) (ep : endpoint) (q : values)
   | Ok c => Some (web_editor ep c)
   | Err _ => None
   end.
+
+(* ---- concurrent web requests: every handler reads the option state once (currentConfig(),
+   under currentMu), then works on its own copy; a schedule is the list of request indices in the
+   order the scheduler lets them take their next step *)
+Record wst := { w_cur : config; w_local : nat -> option config; w_resp : nat -> option (option config) }.
+
+Definition wset {A} (g : nat -> A) (i : nat) (v : A) : nat -> A := fun j => if Nat.eqb j i then v else g j.
+
+Definition wstep (e : env) (reqs : list (endpoint * values)) (s : wst) (i : nat) : wst :=
+  match w_local s i with
+  | None => {| w_cur := w_cur s; w_local := wset (w_local s) i (Some (w_cur s)); w_resp := w_resp s |}
+  | Some c =>
+      {| w_cur := w_cur s; w_local := w_local s;
+         w_resp := wset (w_resp s) i
+                     (Some (match nth_error reqs i with
+                            | Some (ep, q) => web_request_cfg e c ep q
+                            | None => None
+                            end)) |}
+  end.
+
+Definition wrun (e : env) (reqs : list (endpoint * values)) (sched : list nat) (s : wst) : wst :=
+  fold_left (wstep e reqs) sched s.
+
+Definition winit (cur : config) : wst := {| w_cur := cur; w_local := fun _ => None; w_resp := fun _ => None |}.
+
+(* ---- reports and the profile they are handed.  [report] may mutate its argument: it returns
+   the profile as it left it.  [fresh = true] is the code (copier.newCopy() per command);
+   [fresh = false] hands every report the object the previous one left behind. *)
+Section Reports.
+  Variables P O : Type.
+  Variable parse : string -> P.
+  Variable report : P -> list string -> config -> O * P.
+
+  Fixpoint run_reports (fresh : bool) (bytes : string) (obj : P) (evs : list (list string * config)) : list O :=
+    match evs with
+    | [] => []
+    | (cmd, c) :: r =>
+        let p := if fresh then parse bytes else obj in
+        let '(o, p') := report p cmd c in
+        o :: run_reports fresh bytes p' r
+    end.
+End Reports.
